@@ -71,6 +71,16 @@ func runGateRule(w *World, r *Report, a *locAnchors, rule string, gates []gateSp
 		return a.inStateLayer(fn) || isTestFile(w, fn) || ungatedByDesign(rule, outermost(fn))
 	}
 	g := newGateEngine(w, gates, isSink, skip)
+	// helpers that wrap the check (refactorings) count as the check; the gates themselves and the entries are not wrappers
+	wrappers := g.deriveWrappers(func(fn *ssa.Function) bool {
+		if fn.Object() != nil && fn.Object().Exported() {
+			return false // an exported entry that checks and then acts is an entry, not a check
+		}
+		return w.RelPkg(fn) == "core" && !a.inStateLayer(fn)
+	})
+	if len(wrappers) > 0 {
+		r.Notes = append(r.Notes, rule+": derived gate wrappers: "+strings.Join(wrappers, ", "))
+	}
 	g.solve()
 	for _, m := range a.exportedLocationMethods() {
 		if ungatedByDesign(rule, m) {
